@@ -208,8 +208,8 @@ def gen_case(rng, i):
     """returns (A numpy, shape or None, eps, rmax, torch dtype, source kind, family)"""
     import torch
     r = rng.random()
-    dtype = rng.choice([torch.float64, torch.float64, torch.float64, torch.float32, torch.complex128])
-    cplx = dtype == torch.complex128
+    dtype = rng.choice([torch.float64, torch.float64, torch.float64, torch.float32, torch.complex128, torch.complex128, torch.complex64])
+    cplx = dtype in (torch.complex128, torch.complex64)
     src = rng.choice(["torch", "torch", "numpy"])
     rmax = None
     if r < 0.30:      # super-diagonal: all unfoldings share the spectrum sqrt(sig2); engineered allowances and ties
@@ -231,7 +231,7 @@ def gen_case(rng, i):
     N = [rng.choice([1, 2, 2, 3, 3, 4, 5]) for _ in range(rng.choice([2, 3, 3, 4, 5]))]
     if rng.random() < 0.15: N = [rng.choice([2, 3, 4, 6])]
     eps = rng.choice([1e-12, 1e-10, 1e-8, 1e-6, 1e-4, 1e-3, 1e-2, 0.1, 0.3, 0.5, 0.9])
-    if dtype == torch.float32: eps = max(eps, 1e-5)
+    if dtype in (torch.float32, torch.complex64): eps = max(eps, 1e-5)
     if r < 0.60:      # exactly low rank (integer CP terms): rank bound by the unfolding rank
         rk = rng.randint(1, 3)
         A = np.zeros(N, dtype=np.complex128 if cplx else np.float64)
